@@ -211,6 +211,7 @@ def run_schedule(nworkers, rows, chooser):
 
     def row_func(row):
         row['done'] += 1
+        row['log'].append('x')      # a nested value: an extra application on a shallow copy of the row shows here
 
     def consume():
         try:
@@ -249,7 +250,7 @@ def gen_rows(n, pattern):
     rows = []
     for i in range(n):
         sel = {'none': False, 'all': True, 'some': i % 2 == 1, 'late': i >= n - 1, 'first': i == 0}[pattern]
-        rows.append({'id': i, 'sel': sel, 'done': 0})
+        rows.append({'id': i, 'sel': sel, 'done': 0, 'log': []})
     return rows
 
 
@@ -280,8 +281,9 @@ def check_run(rows, delivered, err):
         return 'delivered ids %r, input ids %r' % (ids, list(range(len(rows))))
     for r in delivered:
         want = 1 if rows[r['id']]['sel'] else 0
-        if r['done'] != want:
-            return 'row %d (selected=%s) had the row function applied %d times' % (r['id'], rows[r['id']]['sel'], r['done'])
+        if r['done'] != want or len(r['log']) != want:
+            return 'row %d (selected=%s) had the row function applied %d times (%d times on its nested value)' % (
+                r['id'], rows[r['id']]['sel'], r['done'], len(r['log']))
     return None
 
 
@@ -293,6 +295,7 @@ def run_impl(case):
 
         def rf(row):
             row['done'] += 1
+            row['log'].append('x')
         with quiet():
             got = list(PMOD.fork(iter(copy.deepcopy(rows)), rf, n, lambda r: r['sel']))
         return {'problem': check_run(rows, got, []), 'seconds': round(time.time() - t0, 1), 'schedules': 1}
